@@ -19,6 +19,7 @@ import (
 	"context"
 	"fmt"
 	"math"
+	"math/big"
 	"sort"
 	"strconv"
 	"strings"
@@ -29,6 +30,7 @@ import (
 	"github.com/blugelabs/bluge/numeric"
 	"github.com/blugelabs/bluge/search"
 	"github.com/blugelabs/bluge/search/aggregations"
+	"github.com/blugelabs/bluge/search/searcher"
 	"github.com/caio/go-tdigest"
 
 	"verif/harness/hlib"
@@ -45,7 +47,12 @@ type h struct {
 	w       *bluge.Writer
 	r       *bluge.Reader
 	caseNo  int
+	hung    bool // a search of this case did not return: the rest of the case is skipped
 }
+
+// a search that does not come back within this time is reported as "hang" (an observation, not the death of
+// the harness); the stuck goroutine is abandoned together with its index
+const searchTimeout = 40 * time.Second
 
 func (*h) Rule() string {
 	return "per case a generated in-memory corpus (0..~150 documents in 1..4 batches, some deleted) with single- and multi-valued numeric, date and keyword fields, duplicates inside a document and missing values; " +
@@ -73,10 +80,10 @@ func kindOf(f string) byte { return f[0] } // n, d, k, t
 // ---------------------------------------------------------------------------------- generator
 
 func (*h) Gen(r *hlib.Rand, tier string, scale int, emit func(string)) {
-	ncases := 14 * scale
+	ncases := 80 * scale
 	reqPer := 10
 	if tier == "thorough" {
-		ncases = 120 * scale
+		ncases = 1200 * scale
 		reqPer = 16
 	}
 	for c := 0; c < ncases; c++ {
@@ -280,12 +287,38 @@ func (g *reqGen) query() string {
 	case 5:
 		return "not:" + tok()
 	default:
-		lo, hi := g.numBound("n1"), g.numBound("n1")
-		if math.Float64frombits(p64(lo)) > math.Float64frombits(p64(hi)) {
-			lo, hi = hi, lo
+		for try := 0; try < 12; try++ {
+			lo, hi := g.numBound("n1"), g.numBound("n1")
+			if math.Float64frombits(p64(lo)) > math.Float64frombits(p64(hi)) {
+				lo, hi = hi, lo
+			}
+			// NumericRangeSearcher walks every byte string between the bounds of each sub-range
+			// (C10's finding "numeric-range-walk-exceeds-cap"); keep the queries of this stream cheap
+			if rangeWalkSteps(math.Float64frombits(p64(lo)), math.Float64frombits(p64(hi))) <= 20000 {
+				return "nr:n1:" + lo + ":" + hi
+			}
 		}
-		return "nr:n1:" + lo + ":" + hi
+		return "all"
 	}
+}
+
+// rangeWalkSteps estimates how many terms NewNumericRangeSearcher(min inclusive, max exclusive) enumerates:
+// the base-256 distance between the start and end term of every sub-range of the split.
+func rangeWalkSteps(lo, hi float64) float64 {
+	a, b := numeric.Float64ToInt64(lo), numeric.Float64ToInt64(hi)
+	if b != math.MinInt64 {
+		b--
+	}
+	total := 0.0
+	for _, r := range searcher.VerifSplitInt64Range(a, b, 4) {
+		x := new(big.Int).SetBytes(r[0])
+		y := new(big.Int).SetBytes(r[1])
+		d, _ := new(big.Float).SetInt(y.Sub(y, x)).Float64()
+		if d > 0 {
+			total += d
+		}
+	}
+	return total
 }
 
 func (g *reqGen) numBound(f string) string {
@@ -508,6 +541,10 @@ func unhex(s string) []byte {
 }
 
 func (s *h) reset() {
+	if s.hung {
+		// do not touch an index with a stuck search on it
+		s.r, s.w, s.hung = nil, nil, false
+	}
 	if s.r != nil {
 		_ = s.r.Close()
 	}
@@ -857,7 +894,7 @@ func dedup(fs []string) []string {
 	return out
 }
 
-func (s *h) execReq(line string, st *hlib.Stats) (string, string) {
+func (s *h) execReq(line string, st *reqStats) (string, string) {
 	w := strings.Split(line, " ")
 	var q, a, c string
 	for _, kv := range w[1:] {
@@ -983,9 +1020,19 @@ func (s *h) execReq(line string, st *hlib.Stats) (string, string) {
 	default:
 		st.Count("matches:100+")
 	}
-	st.Case(fmt.Sprintf("%d %s", s.caseNo, line), len(ids) > 0)
+	st.key, st.nontrivial = fmt.Sprintf("%d %s", s.caseNo, line), len(ids) > 0
 	return op, res
 }
+
+// reqStats collects what a request wants to add to the run statistics; it is applied by the main goroutine only
+// when the request returned (an abandoned, stuck search must not touch shared maps later)
+type reqStats struct {
+	counts     []string
+	key        string
+	nontrivial bool
+}
+
+func (r *reqStats) Count(k string) { r.counts = append(r.counts, k) }
 
 // dv: the document's doc values as the index holds them, through FieldSource (the real decode path)
 func (s *h) execDV(line string) (string, string) {
@@ -1059,9 +1106,47 @@ func (s *h) Exec(line string, out func(string, string), st *hlib.Stats, work str
 				s.r = nil
 			}
 		case "dv":
+			if s.hung {
+				res = "skipped-after-hang"
+				break
+			}
 			op, res = s.execDV(line)
 		case "req":
-			op, res = s.execReq(line, st)
+			if s.hung {
+				res = "skipped-after-hang"
+				break
+			}
+			type pr struct {
+				op, res string
+				rs      *reqStats
+			}
+			ch := make(chan pr, 1)
+			go func() {
+				defer func() {
+					if e := recover(); e != nil {
+						ch <- pr{line, "panic", nil}
+					}
+				}()
+				rs := &reqStats{}
+				o, r := s.execReq(line, rs)
+				ch <- pr{o, r, rs}
+			}()
+			select {
+			case x := <-ch:
+				op, res = x.op, x.res
+				if x.rs != nil {
+					for _, k := range x.rs.counts {
+						st.Count(k)
+					}
+					if x.rs.key != "" {
+						st.Case(x.rs.key, x.rs.nontrivial)
+					}
+				}
+			case <-time.After(searchTimeout):
+				s.hung = true
+				op, res = line+" m=-", "hang"
+				st.Count("res:hang")
+			}
 		default:
 			res = "bad-op"
 		}
